@@ -195,3 +195,42 @@ Theorem C13_same_operand_subsegments_do_not_overlap :
     forall x y x' y', on_seg ax ay bx by_ x y -> on_seg cx cy dx dy x y ->
                       on_seg ax ay bx by_ x' y' -> on_seg cx cy dx dy x' y' -> qeqp x y x' y'.
 Proof. exact subdivide_same_operand_disjoint. Qed.
+
+(** ** the planarity clause as a VERIFIED per-run certificate.  [planar_check] decides with
+    the exact kernel that the segments of a list pairwise meet in end points of both only, or
+    coincide completely and belong to different operands ([seg_rel], the clause of C13);
+    [segments_of] reads the sub-segments (left events with their partners, floating-point
+    coordinates converted exactly) off the store and event vector the sweep returns.  The check
+    evaluates [planar_64] / [planar_32] on the model's run of every exact-family case, whose
+    output the correspondence compares with the implementation's event for event.  That every
+    run of a valid input passes is NOT proved (global planarity). *)
+From GB Require Import Cert13.
+Theorem C13_planar_certificate_sound :
+  forall L : list edge, planar_check L = true -> ForallOrdPairs seg_rel L.
+Proof. exact planar_check_sound. Qed.
+
+Theorem C13_planar_certificate_pairs :
+  forall L : list edge, planar_check L = true ->
+  forall i j d, (i < j < length L)%nat -> seg_rel (nth i L d) (nth j L d).
+Proof. exact planar_check_pairs. Qed.
+
+Theorem C13_seg_rel_unfold :
+  forall (ax ay bx by_ cx cy dx dy : Q) (sa sb : bool),
+  seg_rel (ax, ay, (bx, by_), sa) (cx, cy, (dx, dy), sb) <->
+  ((forall x y, SplitCover.on_seg ax ay bx by_ x y -> SplitCover.on_seg cx cy dx dy x y ->
+     (qeqp x y ax ay \/ qeqp x y bx by_) /\ (qeqp x y cx cy \/ qeqp x y dx dy))
+   \/ (sa <> sb /\ ((qeqp ax ay cx cy /\ qeqp bx by_ dx dy) \/ (qeqp ax ay dx dy /\ qeqp bx by_ cx cy)))).
+Proof. exact (fun _ _ _ _ _ _ _ _ _ _ => conj (fun H => H) (fun H => H)). Qed.
+
+Theorem C13_planar_run_sound :
+  forall (N : Num) (cv : pt N -> option (Q * Q)) (st : store N) (evs : list eid),
+  planar_run N cv st evs = true ->
+  exists l, segments_of N cv st evs = Some l /\ ForallOrdPairs seg_rel l.
+Proof. exact planar_run_sound. Qed.
+
+Theorem C13_planar_certificate_example :
+  planar_check (cons (0, 0, (1, 1), true) (cons (1, 1, (2, 2), true) (cons (0, 2, (1, 1), false) (cons (1, 1, (2, 0), false) nil)))) = true /\
+  planar_check (cons (0, 0, (2, 2), true) (cons (0, 2, (2, 0), false) nil)) = false /\
+  planar_check (cons (0, 0, (2, 0), true) (cons (0, 0, (2, 0), false) nil)) = true /\
+  planar_check (cons (0, 0, (2, 0), true) (cons (1, 0, (3, 0), false) nil)) = false.
+Proof. exact planar_example. Qed.
